@@ -3,6 +3,7 @@
  * 128-bit reference.  quick: r in [0,2^20) U boundary points U [2^32-2^16,2^32);
  * thorough: every r in [0,2^32), partitioned (--part/--nparts). */
 #include "../mc/vf.h"
+#include "../mc/darwin.h"
 #include "lltdAutomata.h"
 
 #include <string.h>
@@ -51,6 +52,68 @@ static void check_choose(uint32_t ni) {
     vf_outcome(vf_hash64(&need, 8, 77));
 }
 
+/* ---- end of block inside the periodic tick (automata_tick as the Darwin daemon wires it) ----
+ * One pseudo-event = one tuple (prior Ni, r, begun, Hello timer, block timer, last transmit): the
+ * enumeration automaton is put in Pausing with one incomplete session, the band fields are set, one
+ * real tick runs.  When the block timer was due, r > 0 and enumeration had begun, the count must be
+ * the formula's and the next Hello deadline at least the formula's interval for that count away. */
+static const uint32_t T_NI[] = {45, 7, 2000, 8820, 10000};
+static const uint32_t T_R[] = {0, 1, 2, 14, 15, 16, 100, 65535, 65536, 0xFFFFFFFFu};
+static const int T_HELLO[] = {0, -1000, -1, 0x7FFF /* = now */, 1, 500};         /* 0: no deadline; else deadline - now (ms) */
+static const int T_BLOCK[] = {-1, 0x7FFF, 1};
+static const int T_LAST[] = {0, -1, -500, -999, -1000, -5000};                  /* 0: never sent; else last transmit - now */
+#define NT_NI 5
+#define NT_R 10
+#define NT_H 6
+#define NT_B 3
+#define NT_L 6
+#define NTICK (NT_NI * NT_R * 2 * NT_H * NT_B * NT_L)
+static uint64_t rel_ts(uint64_t now, int d) { return d == 0x7FFF ? now : (uint64_t)((int64_t)now + d); }
+static void tick_case(int code, int verbose) {
+    int c = code;
+    int li = c % NT_L; c /= NT_L; int bi = c % NT_B; c /= NT_B; int hi = c % NT_H; c /= NT_H;
+    int begun = c % 2; c /= 2; int ri = c % NT_R; c /= NT_R; int ni = c % NT_NI;
+    static dw_iface D;
+    vf_world_reset(); W.now_ms = 5000000;
+    dw_init(&D, 0);
+    uint64_t now = W.now_ms;
+    session_entry *e = session_table_add(D.sessionTable, vf_station[ST_M1], 0x1234, 1);
+    if (!e) vf_harness_error("c13 tick: session_table_add failed");
+    e->last_activity_ts = now / 1000; e->complete = false;
+    session_table_update_complete_status(D.sessionTable);
+    band_state *b = D.enumerationAutomata->extra;
+    D.enumerationAutomata->current_state = 1; D.enumerationAutomata->last_ts = now / 1000;
+    b->Ni = T_NI[ni]; b->r = T_R[ri]; b->begun = begun != 0;
+    b->hello_timeout_ts = T_HELLO[hi] == 0 ? 0 : rel_ts(now, T_HELLO[hi]);
+    b->block_timeout_ts = rel_ts(now, T_BLOCK[bi]);
+    D.LastHelloTxMs = T_LAST[li] == 0 ? 0 : rel_ts(now, T_LAST[li]);
+    int block_due = now >= b->block_timeout_ts;
+    uint32_t calls0 = D.hello_calls;
+    dw_tick(&D);
+    evals++;
+    int sent = D.hello_calls != calls0;
+    uint32_t want = ref_ni(T_R[ri]);
+    if (verbose) printf("    tick: prior Ni=%u r=%u begun=%d hello deadline %+d ms block deadline %+d ms last transmit %+d ms -> Ni=%u, next Hello in %lld ms, %s\n", T_NI[ni], T_R[ri], begun,
+                        T_HELLO[hi] == 0x7FFF ? 0 : T_HELLO[hi], T_BLOCK[bi] == 0x7FFF ? 0 : T_BLOCK[bi], T_LAST[li], b->Ni, (long long)(b->hello_timeout_ts - now), sent ? "Hello sent" : "no Hello");
+    if (D.enumerationAutomata->current_state == 0) vf_violation("band-tick:left-pausing-with-open-session", "the tick returned the enumeration automaton to Quiescent although an incomplete session exists");
+    if (block_due) {
+        if (T_R[ri] > 0 && begun) {
+            if (b->Ni != want) vf_violation("band-tick:ni-not-formula", "block ended in the tick (r=%u, begun, prior Ni=%u, Hello %s in the same tick): Ni=%u, the formula gives %u", T_R[ri], T_NI[ni], sent ? "sent" : "not sent", b->Ni, want);
+            unsigned __int128 num = (unsigned __int128)4 * b->Ni * 20; uint64_t need = (uint64_t)((num + 29) / 30);
+            if (b->hello_timeout_ts < now || b->hello_timeout_ts - now < need)
+                vf_violation(sent ? "band-tick:hello-too-soon-after-block:hello-sent-in-same-tick" : "band-tick:hello-too-soon-after-block", "block ended in the tick (r=%u, begun, prior Ni=%u -> Ni=%u, Hello %s in the same tick): the next Hello is %lld ms away, the load formula for that count demands at least %llu ms", T_R[ri], T_NI[ni], b->Ni, sent ? "sent" : "not sent", (long long)(b->hello_timeout_ts - now), (unsigned long long)need);
+        } else if (!(T_R[ri] > 0 && sent) && b->Ni != T_NI[ni])
+            vf_violation("band-tick:ni-changed-without-load", "block ended in the tick with r=%u begun=%d: Ni %u -> %u", T_R[ri], begun, T_NI[ni], b->Ni);
+        if (b->r != 0) vf_violation("band-tick:r-not-reset", "block ended in the tick but r=%u", b->r);
+    } else {
+        if (b->Ni != T_NI[ni] || b->r != T_R[ri]) vf_violation("band-tick:stats-changed-before-block-end", "block timer not due but Ni %u -> %u, r %u -> %u", T_NI[ni], b->Ni, T_R[ri], b->r);
+    }
+    uint64_t o[3] = { b->Ni, b->hello_timeout_ts - now, (uint64_t)sent }; vf_outcome(vf_hash64(o, sizeof o, 13));
+}
+static void tk_name(int ev, char *buf, size_t cap) { snprintf(buf, cap, "tick-case(%d)", ev); }
+static void tk_apply(int ev) { tick_case(ev, A.verbose); }
+static e1_cfg tickcfg;
+
 /* counterexample path: [r>>16, r&0xFFFF, begun, Ni] */
 static void ps_name(int ev, char *buf, size_t cap) { snprintf(buf, cap, "arg(%d)", ev); }
 static void ps_apply(int ev) {
@@ -87,7 +150,9 @@ int main(int argc, char **argv) {
     vf_parse_args(argc, argv, "C13");
     vf_world_init(1500, 0, 0xA5);
     pseudo = (e1_cfg){ .nev = 1 << 16, .ev_name = ps_name, .apply = ps_apply, .root_setup = ps_root };
-    if (A.replay) { A.verbose = 1; return e1_replay_file(&pseudo, A.replay); }
+    tickcfg = (e1_cfg){ .nev = NTICK, .ev_name = tk_name, .apply = tk_apply };
+    if (A.replay) { A.verbose = 1; static char fb[1 << 16]; FILE *f = fopen(A.replay, "r"); size_t n = f ? fread(fb, 1, sizeof fb - 1, f) : 0; fb[n] = 0; if (f) fclose(f);
+                    return e1_replay_file(strstr(fb, "tick-case") ? &tickcfg : &pseudo, A.replay); }
     double t0 = vf_now_s();
     if (vf_thorough()) {
         uint64_t total = 1ull << 32, lo = total * (uint64_t)A.part / (uint64_t)A.nparts, hi = total * (uint64_t)(A.part + 1) / (uint64_t)A.nparts;
@@ -112,6 +177,13 @@ int main(int argc, char **argv) {
         static const uint32_t more[] = {10001, 65535, 65536, 1u << 24, 0x7FFFFFFFu, 0xFFFFFFFFu};
         for (unsigned i = 0; i < 6; i++) check_choose(more[i]);
         vf_sample("band_choose_hello_time for every Ni in [0,10000] and 6 larger values: scheduled - now >= ceil(4*Ni*20/30)");
+    }
+    if (A.part == 0) {
+        for (int code = 0; code < NTICK; code++) {
+            static int p[1]; p[0] = code; e1_manual_path(&tickcfg, p, 1);
+            tick_case(code, 0);
+        }
+        vf_sample("%d ticks of the real automata_tick (Darwin wiring, enumeration Pausing, one incomplete session): prior Ni{45,7,2000,8820,10000} x r{0,1,2,14,15,16,100,65535,65536,2^32-1} x begun x Hello deadline{none,-1000,-1,now,+1,+500} x block deadline{-1,now,+1} x last transmit{never,-1,-500,-999,-1000,-5000} ms", NTICK);
     }
     R.evaluations = evals; R.wall_s = vf_now_s() - t0;
     vf_write_results();
